@@ -73,26 +73,21 @@ def usesUndef (U : List Nat) : Expr → Bool
 def itersP (f : PStore → Option PStore) (v : Nat) (lo step : Int) : Nat → Int → PStore → Option PStore
   | 0, k, p => some ⟨p.st.set (v, 0, 0) (lo + k * step), p.undef.filter (· ≠ v)⟩
   | n+1, k, p =>
-    match f ⟨p.st.set (v, 0, 0) (lo + k * step), p.undef.filter (· ≠ v)⟩ with
-    | none => none
-    | some p' => itersP f v lo step n (k + 1) p'
+    (f ⟨p.st.set (v, 0, 0) (lo + k * step), p.undef.filter (· ≠ v)⟩).bind (itersP f v lo step n (k + 1))
 
 /-- `none` = an undefined scalar was read -/
 def execP : Stmt → PStore → Option PStore
   | .skip, p => some p
-  | .seq a b, p =>
-    match execP a p with
-    | none => none
-    | some p' => execP b p'
+  | .seq a b, p => (execP a p).bind (execP b)
   | .assign x e, p =>
     if usesUndef p.undef e then none
     else some ⟨p.st.set (x, 0, 0) (eval e p.st), p.undef.filter (· ≠ x)⟩
   | .store1 a i e, p =>
     if usesUndef p.undef i || usesUndef p.undef e then none
-    else some ⟨p.st.set (a, eval i p.st, 0) (eval e p.st), p.undef⟩
+    else some ⟨p.st.set (a, eval i p.st, 0) (eval e p.st), p.undef.filter (· ≠ a)⟩
   | .store2 a i j e, p =>
     if usesUndef p.undef i || usesUndef p.undef j || usesUndef p.undef e then none
-    else some ⟨p.st.set (a, eval i p.st, eval j p.st) (eval e p.st), p.undef⟩
+    else some ⟨p.st.set (a, eval i p.st, eval j p.st) (eval e p.st), p.undef.filter (· ≠ a)⟩
   | .ite c t f, p =>
     if usesUndef p.undef c then none
     else if eval c p.st ≠ 0 then execP t p else execP f p
@@ -205,7 +200,7 @@ def iterIndepB (P : ParDo) (σ : Store) : Bool :=
 /-- no iteration reads a privatised scalar before it has written it -/
 def scalarsUncondB (P : ParDo) (σ : Store) : Bool :=
   (List.range (P.trips σ)).all fun k => (P.iterFp σ k).1.all fun l =>
-    l.1 == P.v || !P.privs.contains l.1
+    l == (P.v, 0, 0) || !P.privs.contains l.1
 
 /-! ## `infer_sharing_attributes` -/
 
@@ -215,10 +210,12 @@ structure Scan where
   hasRead : Bool := false    -- `has_been_read`
   readInLoop : Bool := false -- the last read lies inside the body of the innermost enclosing loop
   decided : Option Nat := none  -- decision taken at the first write: 0 private, 1 firstprivate, 2 need_sync
+  first : Nat := 0           -- kind of the very first access: 0 none yet, 1 read, 2 write
+  nwrite : Nat := 0          -- number of write accesses
   deriving Repr, DecidableEq
 
 def Scan.read (s : Scan) : Scan :=
-  { s with nacc := s.nacc + 1,
+  { s with nacc := s.nacc + 1, first := if s.first = 0 then 1 else s.first,
            hasRead := if s.decided.isNone then true else s.hasRead,
            readInLoop := if s.decided.isNone then true else s.readInLoop }
 
@@ -226,10 +223,11 @@ def Scan.read (s : Scan) : Scan :=
 `inIf`: an IfBlock lies between the write and that loop -/
 def Scan.write (s : Scan) (inIf : Bool) : Scan :=
   match s.decided with
-  | some _ => { s with nacc := s.nacc + 1 }
+  | some _ => { s with nacc := s.nacc + 1, nwrite := s.nwrite + 1 }
   | none =>
     let d := if s.hasRead then (if s.readInLoop then 2 else 1) else (if inIf then 1 else 0)
-    { s with nacc := s.nacc + 1, decided := some d }
+    { s with nacc := s.nacc + 1, nwrite := s.nwrite + 1, first := if s.first = 0 then 2 else s.first,
+             decided := some d }
 
 def scanExpr (x : Nat) : Expr → Scan → Scan
   | .lit _, s => s
@@ -297,6 +295,14 @@ def inferSharing (L : Stmt) : Sharing :=
   ⟨xs.filter (fun x => classify L x == some 0),
    xs.filter (fun x => classify L x == some 1),
    xs.filter (fun x => classify L x == some 2)⟩
+
+/-- The scalar part of `ParallelLoopTrans.validate` (`DependencyTools._is_scalar_parallelisable`
+for every scalar that is not a loop variable; the WARN_SCALAR_WRITTEN_ONCE message is ignored by
+`validate`): read-only, or a single access, or the first access is a write. -/
+def validateScalars (L : Stmt) : Bool :=
+  ((stmtScalars L).eraseDups.filter (fun x => !(loopVars L).contains x)).all fun x =>
+    let s := scanStmt x L false {}
+    s.nwrite == 0 || s.nacc == 1 || s.first == 2
 
 /-- the loop with the clauses PSyclone generates for it -/
 def annotate (v : Nat) (lo hi step : Expr) (body : Stmt) : ParDo :=
